@@ -283,7 +283,7 @@ ASSUMPTIONS = [
     "two spas never share an identifier",
 ]
 PROBES = ["name_with_separator", "duplicate_replies", "reply_after_return", "nothing_listed", "three_or_more_listed", "returned_on_requested_spa"]
-N_QUICK = 16000
+N_QUICK = 60000
 
 
 def jobs(tier: str, base_seed: int):
